@@ -82,6 +82,13 @@ def run(chk, tier, seed):
             s2 = "".join(v["swapped"])
             if s2 != s:
                 lines.append("S2D %s" % hexstr(s2)); checks.append(("variant", (s, "swap at %d" % pos, v["swap"], (t, imp)), None)); nvar += 1
+    # length ladder: bodies of every length 0..60 with a CORRECT crc: only time (8) + a whole imprint of a known algorithm is a publication
+    import base64
+    for L in range(0, 61):
+        body = bytearray(rng.randbytes(L))
+        if L > 8: body[8] = 1
+        raw = bytes(body) + zlib.crc32(bytes(body)).to_bytes(4, "big")
+        lines.append("S2D %s" % hexstr(base64.b32encode(raw).decode().rstrip("="))); checks.append(("ladder", L, bytes(body)))
     outs, crashes = vlib.run_lines(exe, lines)
     for idx, rc, err in crashes:
         chk.violation("crash:" + checks[idx][0], "libksi crashed on: %s\n%s" % (lines[idx][:200], err[-1500:]), dict(line=lines[idx]))
@@ -106,6 +113,12 @@ def run(chk, tier, seed):
                 chk.violation("padbits-rejected", "a variant that only changes unused pad bits is rejected (%s)" % what, dict(line=line))
             elif acc and not (int(f.get("time", -1)) == t and f.get("imprint") == imp.hex()):
                 chk.violation("corruption-decodes-differently", "accepted variant decodes to other data (%s)" % what, dict(line=line))
+        elif kind == "ladder":
+            acc = f.get("rc") == "0"
+            if acc != (a == 41):
+                chk.violation("length:%s" % ("accepted" if acc else "rejected"), "a string with a correct CRC whose body has %d octets (8 + 33 make a SHA-256 publication) is %s: %s" % (a, "accepted" if acc else "rejected", o), dict(line=line))
+            elif acc and not (int(f.get("time", -1)) == int.from_bytes(b[:8], "big") and f.get("imprint") == b[8:].hex()):
+                chk.violation("decode", "valid publication string does not decode to its data: %s" % o, dict(line=line))
         elif kind == "foreign":
             s, pos, bval = a
             if f.get("rc") == "0":
